@@ -52,6 +52,34 @@ func runC15(c *Ctx) {
 		cfg.UserSigningKey = "usersign-usersign-usersign-users"
 	}
 	cfg.UsernameTemplate = "{{ username }}||{{ token }}"
+	if c.T.Bool(1, 12) {
+		// a signing key is configured but is shorter than HS256 allows (1-31 characters): the
+		// instance may be unable to mint (the JOSE library refuses the key), but "a signing key is
+		// configured" still means that a token without an inner signature under it - encrypted
+		// under the right key by anybody who knows only that one - is not a valid user token
+		cfg.UserSigningKey = "usersign-usersign-usersign-users"[:1+c.T.Choose(31)]
+		if !bootWeb(c, cfg) {
+			return
+		}
+		bs := c.W.NewBrowser("b1", "10.2.0.5:51000")
+		if ok, cb := bs.Login("/connect", &env.IdPUser{Sub: "s-alice", Claims: map[string]any{"preferred_username": "alice"}}); !ok {
+			c.Infra("login failed: callback status %d body %.100q", cb.Status, cb.Body)
+			return
+		}
+		fr := bs.Get("/connect")
+		pl, _ := json.Marshal(map[string]any{"iss": "rdpgw", "sub": "mallory", "exp": time.Now().Add(5 * time.Minute).Unix()})
+		hdr := []string{`{"alg":"dir","enc":"A128CBC-HS256","typ":"JWT"}`, `{"alg":"dir","enc":"A128CBC-HS256"}`, `{"alg":"dir","enc":"A128CBC-HS256","cty":"JWT"}`}[c.T.Choose(3)]
+		forged := codec.EncryptJWEDirA128CBCHS256([]byte(hdr), pl, []byte(cfg.UserEncKey), c.T.Bytes(16, 2))
+		r := c.W.Do(&env.HTTPReq{Name: "ti-unsigned", From: "10.3.0.9:52000", Method: "GET", Path: "/tokeninfo?access_token=" + url.QueryEscape(forged)})
+		c.S.Count("probe.short_user_signing_key")
+		if r.Status == 200 || strings.Contains(string(r.Body), "mallory") {
+			c.S.Fail("C15", "invalid-token-accepted", "a %d-character user-token signing key is configured; a token encrypted under the encryption key WITHOUT an inner signature (for \"mallory\") yields %d %.80q", len(cfg.UserSigningKey), r.Status, r.Body)
+			return
+		}
+		c.Res.Reach = true
+		c.Samplef("signing key of %d characters: download -> %d (file=%v); unsigned token under the encryption key -> %d", len(cfg.UserSigningKey), fr.Status, gotFile(fr), r.Status)
+		return
+	}
 	if !bootWeb(c, cfg) {
 		return
 	}
